@@ -57,6 +57,9 @@ const (
 func operandText(n *xnode) string {
 	if n.kind == xLit {
 		if s, ok := n.val.(string); ok && !n.isVar {
+			if strings.Contains(n.src, "{{") {
+				return "" // interpolating literal: the detail is not compared
+			}
 			return s // the detail of a string literal is its value
 		}
 		return n.src
